@@ -1,0 +1,84 @@
+//go:build verif
+
+package yoda
+
+// Verification hooks (build tag `verif` only). Nothing here has logic of its own: the constructor repeats the
+// field initialisation of runCmd (run.go) with injected dependencies, the entry points call the unexported
+// production functions, and VerifDrain empties the pendingMsgs channel without blocking.
+
+import (
+	"time"
+
+	abci "github.com/cometbft/cometbft/abci/types"
+	rpcclient "github.com/cometbft/cometbft/rpc/client"
+
+	"cosmossdk.io/log"
+
+	"github.com/cosmos/cosmos-sdk/crypto/keyring"
+	sdk "github.com/cosmos/cosmos-sdk/types"
+
+	band "github.com/bandprotocol/chain/v3/app"
+	"github.com/bandprotocol/chain/v3/pkg/filecache"
+	"github.com/bandprotocol/chain/v3/x/oracle/types"
+	"github.com/bandprotocol/chain/v3/yoda/executor"
+)
+
+// VerifNewContext builds the daemon's Context the way runCmd does, with the RPC client, executor, keyring and
+// file cache directory injected. It also sets the package globals handleRawRequest reads (cfg.ChainID, kb).
+// pendingMsgs is buffered (chanBuf) because the main loop of runImpl, which normally receives from it, is absent.
+func VerifNewContext(
+	app *band.BandApp,
+	client rpcclient.Client,
+	validator sdk.ValAddress,
+	exec executor.Executor,
+	keybase keyring.Keyring,
+	chainID string,
+	cacheDir string,
+	maxTry uint64,
+	pollInterval time.Duration,
+	chanBuf int,
+) (*Context, error) {
+	cfg.ChainID = chainID
+	kb = keybase
+	keys, err := kb.List()
+	if err != nil {
+		return nil, err
+	}
+	c := &Context{}
+	c.bandApp = app
+	c.keys = keys
+	c.validator = validator
+	c.executor = exec
+	c.client = client
+	c.fileCache = filecache.New(cacheDir)
+	c.maxTry = maxTry
+	c.rpcPollInterval = pollInterval
+	c.pendingMsgs = make(chan ReportMsgWithKey, chanBuf)
+	c.freeKeys = make(chan int64, len(keys))
+	c.keyRoundRobinIndex = -1
+	c.pendingRequests = make(map[types.RequestID]bool)
+	c.metricsEnabled = cfg.MetricsListenAddr != ""
+	return c, nil
+}
+
+// VerifLogger wraps a cosmossdk.io/log logger (e.g. log.NewNopLogger()) in the daemon's Logger.
+func VerifLogger(l log.Logger) *Logger { return &Logger{logger: l} }
+
+// VerifHandleRequest runs handleRequest in the caller's goroutine.
+func VerifHandleRequest(c *Context, l *Logger, id types.RequestID) { handleRequest(c, l, id) }
+
+// VerifHandleTransaction runs handleTransaction in the caller's goroutine (it spawns `go handleRequest` itself).
+func VerifHandleTransaction(c *Context, l *Logger, tx abci.TxResult) { handleTransaction(c, l, tx) }
+
+// VerifDrain returns the reports queued on pendingMsgs so far, without blocking.
+func VerifDrain(c *Context) []*types.MsgReportData {
+	var out []*types.MsgReportData
+	for {
+		select {
+		case pm := <-c.pendingMsgs:
+			out = append(out, pm.msg)
+		default:
+			return out
+		}
+	}
+}
